@@ -21,7 +21,8 @@ Trace == ndJsonDeserialize("trace.ndjson")
 
 Kinds == << "deadlock",                  \* C13: a listen/close call did not return
             "listen-failed",             \* C13: manager not usable / sharing broken (address held only by the manager)
-            "delivered-after-close",     \* C12: a call that began after Close returned got a connection/datagram
+            "delivered-after-close",     \* C12: a call that began after Close returned got a connection/datagram, or a handle got
+                                         \*      one that was sent only after its Close had returned (even through an older call)
             "duplicate-delivery",        \* C12: one connection/datagram delivered twice
             "spurious-closed",           \* C12: closed-network error on a handle nobody closed
             "accept-not-unblocked",      \* C12: pending accept/read not released by Close
@@ -34,8 +35,8 @@ Kinds == << "deadlock",                  \* C13: a listen/close call did not ret
 NK == Len(Kinds)
 KindIdx(s) == CHOOSE i \in 1..NK : Kinds[i] = s
 
-VARIABLES l, closeStarted, closeDone, acc, delivered, vio, nsched, ndrift, keyOf, itemKey, gap
-tvars == <<l, closeStarted, closeDone, acc, delivered, vio, nsched, ndrift, keyOf, itemKey, gap>>
+VARIABLES l, closeStarted, closeDone, acc, delivered, vio, nsched, ndrift, keyOf, itemKey, gap, closedAtSend
+tvars == <<l, closeStarted, closeDone, acc, delivered, vio, nsched, ndrift, keyOf, itemKey, gap, closedAtSend>>
 
 Fresh == /\ closeStarted' = [h \in 1..MaxH |-> FALSE]
          /\ closeDone' = [h \in 1..MaxH |-> FALSE]
@@ -44,6 +45,7 @@ Fresh == /\ closeStarted' = [h \in 1..MaxH |-> FALSE]
          /\ keyOf' = [h \in 1..MaxH |-> 0]
          /\ itemKey' = [i \in 1..MaxItem |-> 0]
          /\ gap' = [i \in 1..MaxItem |-> FALSE]
+         /\ closedAtSend' = [i \in 1..MaxItem |-> {}]
 
 \* handles of key k that are open: listen succeeded, Close not started
 OpenOn(k, cs) == {h \in 1..MaxH : keyOf[h] = k /\ ~cs[h]}
@@ -58,6 +60,7 @@ Init == /\ l = 1
         /\ keyOf = [h \in 1..MaxH |-> 0]
         /\ itemKey = [i \in 1..MaxItem |-> 0]
         /\ gap = [i \in 1..MaxItem |-> FALSE]
+        /\ closedAtSend = [i \in 1..MaxItem |-> {}]
 
 Flag(kinds) == vio' = [k \in 1..NK |-> IF vio[k] = 0 /\ Kinds[k] \in kinds THEN l ELSE vio[k]]
 
@@ -69,54 +72,54 @@ TrSched == Is("Sched") /\ Fresh /\ nsched' = nsched + 1 /\ UNCHANGED <<vio, ndri
 TrListenEnd == /\ Is("ListenEnd")
                /\ Flag(IF E.ok \/ E.foreign THEN {} ELSE {"listen-failed"})   \* a foreign socket holds the address: must fail
                /\ keyOf' = IF E.ok THEN [keyOf EXCEPT ![E.h] = E.k] ELSE keyOf
-               /\ UNCHANGED <<closeStarted, closeDone, acc, delivered, nsched, ndrift, itemKey, gap>>
+               /\ UNCHANGED <<closeStarted, closeDone, acc, delivered, nsched, ndrift, itemKey, gap, closedAtSend>>
 
 \* when the last open handle of an address closes, everything undelivered on that address may legitimately be dropped
 TrCloseStart == /\ Is("CloseStart")
                 /\ closeStarted' = [closeStarted EXCEPT ![E.h] = TRUE]
                 /\ gap' = [i \in 1..MaxItem |->
                             gap[i] \/ (itemKey[i] # 0 /\ itemKey[i] = keyOf[E.h] /\ OpenOn(keyOf[E.h], closeStarted') = {})]
-                /\ UNCHANGED <<closeDone, acc, delivered, vio, nsched, ndrift, keyOf, itemKey>>
+                /\ UNCHANGED <<closeDone, acc, delivered, vio, nsched, ndrift, keyOf, itemKey, closedAtSend>>
 TrCloseEnd == /\ Is("CloseEnd")
               /\ closeDone' = [closeDone EXCEPT ![E.h] = TRUE]
-              /\ UNCHANGED <<closeStarted, acc, delivered, vio, nsched, ndrift, keyOf, itemKey, gap>>
+              /\ UNCHANGED <<closeStarted, acc, delivered, vio, nsched, ndrift, keyOf, itemKey, gap, closedAtSend>>
 
 TrAcceptStart == /\ Is("AcceptStart")
                  /\ acc' = [acc EXCEPT ![E.t] = [h |-> E.h, after |-> closeDone[E.h]]]
-                 /\ UNCHANGED <<closeStarted, closeDone, delivered, vio, nsched, ndrift, keyOf, itemKey, gap>>
+                 /\ UNCHANGED <<closeStarted, closeDone, delivered, vio, nsched, ndrift, keyOf, itemKey, gap, closedAtSend>>
 
 TrAcceptEnd ==
   /\ Is("AcceptEnd")
   /\ IF E.res = "item" /\ E.item >= 1 /\ E.item <= MaxItem
-     THEN /\ Flag((IF acc[E.t].after THEN {"delivered-after-close"} ELSE {})
+     THEN /\ Flag((IF acc[E.t].after \/ E.h \in closedAtSend[E.item] THEN {"delivered-after-close"} ELSE {})
                   \cup (IF delivered[E.item] >= 1 THEN {"duplicate-delivery"} ELSE {}))
           /\ delivered' = [delivered EXCEPT ![E.item] = delivered[E.item] + 1]
           /\ UNCHANGED ndrift
      ELSE IF E.res = "closed"
      THEN /\ Flag(IF closeStarted[E.h] THEN {} ELSE {"spurious-closed"})
-          /\ UNCHANGED <<delivered, ndrift>>
-     ELSE /\ ndrift' = ndrift + 1 /\ UNCHANGED <<delivered, vio>>
+          /\ UNCHANGED <<delivered, ndrift, closedAtSend>>
+     ELSE /\ ndrift' = ndrift + 1 /\ UNCHANGED <<delivered, vio, closedAtSend>>
   /\ acc' = [acc EXCEPT ![E.t] = [h |-> 0, after |-> FALSE]]
-  /\ UNCHANGED <<closeStarted, closeDone, nsched, keyOf, itemKey, gap>>
+  /\ UNCHANGED <<closeStarted, closeDone, nsched, keyOf, itemKey, gap, closedAtSend>>
 
 TrStuck == /\ Is("Stuck")
            /\ Flag(IF E.op \in {"listen", "close"} THEN {"deadlock"}
                    ELSE IF E.op = "accept-after-close" THEN {"accept-not-unblocked"} ELSE {"deadlock"})
-           /\ UNCHANGED <<closeStarted, closeDone, acc, delivered, nsched, ndrift, keyOf, itemKey, gap>>
+           /\ UNCHANGED <<closeStarted, closeDone, acc, delivered, nsched, ndrift, keyOf, itemKey, gap, closedAtSend>>
 
 TrRebind == /\ Is("Rebind")
             /\ Flag(IF E.ok THEN {} ELSE {"socket-not-released"})
-            /\ UNCHANGED <<closeStarted, closeDone, acc, delivered, nsched, ndrift, keyOf, itemKey, gap>>
+            /\ UNCHANGED <<closeStarted, closeDone, acc, delivered, nsched, ndrift, keyOf, itemKey, gap, closedAtSend>>
 
 TrItemFate == /\ Is("ItemFate")
               /\ Flag(IF E.fate = "hanging" THEN {"connection-left-hanging"} ELSE {})
               /\ ndrift' = IF E.fate = "served" /\ E.item >= 1 /\ E.item <= MaxItem /\ delivered[E.item] = 0
                            THEN ndrift + 1 ELSE ndrift
-              /\ UNCHANGED <<closeStarted, closeDone, acc, delivered, nsched, keyOf, itemKey, gap>>
+              /\ UNCHANGED <<closeStarted, closeDone, acc, delivered, nsched, keyOf, itemKey, gap, closedAtSend>>
 
 TrLeak == /\ Is("Leak")
           /\ Flag(IF E.n > 0 THEN {"goroutine-leak"} ELSE {})
-          /\ UNCHANGED <<closeStarted, closeDone, acc, delivered, nsched, ndrift, keyOf, itemKey, gap>>
+          /\ UNCHANGED <<closeStarted, closeDone, acc, delivered, nsched, ndrift, keyOf, itemKey, gap, closedAtSend>>
 
 \* an item is sent at some instant between ConnectStart and Connect: from ConnectStart on, any moment without an open
 \* handle on its address is a moment at which it may legitimately have been refused or dropped
@@ -124,12 +127,13 @@ TrConnectStart == /\ Is("ConnectStart")
                   /\ IF E.item >= 1 /\ E.item <= MaxItem
                      THEN /\ itemKey' = [itemKey EXCEPT ![E.item] = E.k]
                           /\ gap' = [gap EXCEPT ![E.item] = OpenOn(E.k, closeStarted) = {}]
-                     ELSE UNCHANGED <<itemKey, gap>>
+                          /\ closedAtSend' = [closedAtSend EXCEPT ![E.item] = {h \in 1..MaxH : closeDone[h]}]
+                     ELSE UNCHANGED <<itemKey, gap, closedAtSend>>
                   /\ UNCHANGED <<closeStarted, closeDone, acc, delivered, vio, nsched, ndrift, keyOf>>
 \* a send that failed (refused) creates no obligation
 TrConnect == /\ Is("Connect")
              /\ gap' = IF ~E.ok /\ E.item >= 1 /\ E.item <= MaxItem THEN [gap EXCEPT ![E.item] = TRUE] ELSE gap
-             /\ UNCHANGED <<closeStarted, closeDone, acc, delivered, vio, nsched, ndrift, keyOf, itemKey>>
+             /\ UNCHANGED <<closeStarted, closeDone, acc, delivered, vio, nsched, ndrift, keyOf, itemKey, closedAtSend>>
 
 \* the driver has waited (seconds) for deliveries to settle; scripts are finished or parked
 TrCleanupStart ==
@@ -137,14 +141,14 @@ TrCleanupStart ==
   /\ LET waitingOn(k) == \E t \in 0..MaxT : acc[t].h # 0 /\ keyOf[acc[t].h] = k /\ ~closeStarted[acc[t].h]
          lost == {i \in 1..MaxItem : itemKey[i] # 0 /\ delivered[i] = 0 /\ ~gap[i] /\ waitingOn(itemKey[i])} IN
      Flag(IF lost # {} THEN {"item-lost"} ELSE {})
-  /\ UNCHANGED <<closeStarted, closeDone, acc, delivered, nsched, ndrift, keyOf, itemKey, gap>>
+  /\ UNCHANGED <<closeStarted, closeDone, acc, delivered, nsched, ndrift, keyOf, itemKey, gap, closedAtSend>>
 
 TrAddrCheck == /\ Is("AddrCheck")
                /\ Flag(IF E.atReturn # E.sender \/ E.atEnd # E.sender THEN {"wrong-source-address"} ELSE {})
-               /\ UNCHANGED <<closeStarted, closeDone, acc, delivered, nsched, ndrift, keyOf, itemKey, gap>>
+               /\ UNCHANGED <<closeStarted, closeDone, acc, delivered, nsched, ndrift, keyOf, itemKey, gap, closedAtSend>>
 
 TrOther == /\ l <= Len(Trace) /\ E.ev \in {"ListenStart", "Replayed", "End", "Free"} /\ l' = l + 1
-           /\ UNCHANGED <<closeStarted, closeDone, acc, delivered, vio, nsched, ndrift, keyOf, itemKey, gap>>
+           /\ UNCHANGED <<closeStarted, closeDone, acc, delivered, vio, nsched, ndrift, keyOf, itemKey, gap, closedAtSend>>
 
 Next == TrSched \/ TrListenEnd \/ TrCloseStart \/ TrCloseEnd \/ TrAcceptStart \/ TrAcceptEnd \/ TrStuck
         \/ TrRebind \/ TrItemFate \/ TrLeak \/ TrOther \/ TrConnect \/ TrConnectStart \/ TrCleanupStart \/ TrAddrCheck
